@@ -446,6 +446,12 @@ class ConcreteEngine:
         self.nfresh += 1
         return self.nfresh
 
+    def stub_choose(self, n, label):
+        return self.choose(n, 'stub:%s:%d' % (label, self.fresh()))
+
+    def stub_real(self, label):
+        return float(self._get('stub:%s:%d' % (label, self.fresh()), 0))
+
     def assume(self, cond, note=None):
         if not cond:
             raise Abort()
